@@ -1,8 +1,10 @@
 package goverter
 
 import (
+	"fmt"
 	"os"
 	"path/filepath"
+	"sort"
 
 	"github.com/jmattheis/goverter/comments"
 	"github.com/jmattheis/goverter/config"
@@ -66,13 +68,55 @@ func generateConvertersRaw(c *GenerateConfig) (map[string][]byte, error) {
 }
 
 func writeFiles(files map[string][]byte) error {
-	for path, content := range files {
+	paths := make([]string, 0, len(files))
+	for path := range files {
+		paths = append(paths, path)
+	}
+	sort.Strings(paths)
+
+	// A failing run should not leave the files of some converters behind:
+	// look at every location before the first file is written.
+	for _, path := range paths {
+		if err := checkWritable(path); err != nil {
+			return err
+		}
+	}
+
+	for _, path := range paths {
 		if err := os.MkdirAll(filepath.Dir(path), 0o755); err != nil {
 			return err
 		}
-		if err := os.WriteFile(path, content, 0o644); err != nil {
+		if err := os.WriteFile(path, files[path], 0o644); err != nil {
 			return err
 		}
 	}
 	return nil
+}
+
+// checkWritable reports output locations that cannot be written: a directory
+// at the place of the file, a file that cannot be opened for writing or a
+// regular file at the place of one of the parent directories.
+func checkWritable(path string) error {
+	if info, err := os.Stat(path); err == nil {
+		if info.IsDir() {
+			return fmt.Errorf("cannot write %s: is a directory", path)
+		}
+		f, err := os.OpenFile(path, os.O_WRONLY, 0)
+		if err != nil {
+			return err
+		}
+		return f.Close()
+	}
+	for dir := filepath.Dir(path); ; dir = filepath.Dir(dir) {
+		info, err := os.Stat(dir)
+		if err == nil {
+			if !info.IsDir() {
+				return fmt.Errorf("cannot write %s: %s is not a directory", path, dir)
+			}
+			return nil
+		}
+		if dir == filepath.Dir(dir) {
+			return nil
+		}
+	}
 }
